@@ -402,6 +402,52 @@ def run_sqla(ctx):
     session.close()
 
 
+def run_django(ctx):
+    """The Django resource protector (django_oauth2.ResourceProtector.acquire_token + BearerTokenValidator over a token model):
+    header shapes x token states x scope forms x required specifications, a multi-scope STRING requirement included (one
+    alternative that needs all of its scopes)."""
+    from impl import django_provider as DP
+    from impl import oauth2_server as S
+    m = ctx.model
+    states = {"unknown": None, "live": (False, False), "expired": (True, False), "revoked": (False, True)}
+    reqs = [None, "", "a", "a b", "b a", "a c", "a b c d", ["a"], ["a", "b"], ["a b", "c"], ["d", "a c"], ["a  b"], ["x"], "x", "a x"]
+    for auth in HEADERS_SERVING[:3] + [None, "", "Bearer", "Basic tok", "Bearer tok b"]:
+        for sname, st in states.items():
+            for scope in (None, "", "a", "a b", "b a c", "a b c d"):
+                if auth not in HEADERS_SERVING[:1] and scope not in ("a b", None):
+                    continue
+                for required in reqs:
+                    store = S.Store()
+                    p = DP.OAuth2Provider(store)
+                    if st is not None:
+                        row = p.TokenModel("c1", "alice", token_type="Bearer", access_token="tok", refresh_token="rt", scope=scope, expires_in=3600)
+                        if st[0]:
+                            row.issued_at -= 7200
+                        if st[1]:
+                            row.access_token_revoked_at = 1
+                        store.tokens.append(row)
+                    try:
+                        t = p.acquire(auth, required)
+                        got = ["serve", "tok" if t is store.tokens[0] else "?"]
+                    except OAuth2Error as e:
+                        got = ["refuse", e.status_code, e.error]
+                    except Exception as e:  # noqa: BLE001
+                        got = ["escapes", type(e).__name__]
+                    mstore = {} if st is None else {"tok": {"expired": st[0], "revoked": st[1], "scope": scope}}
+                    mod = m.call("validate_request", {"types": ["bearer"], "store": mstore, "auth": auth, "required": required})
+                    case = {"django_protector": True, "auth": auth, "state": sname, "token_scope": scope, "required": required}
+                    ctx.case(case, ("django", auth, sname, json.dumps(scope), json.dumps(required)), "django:" + got[0])
+                    ctx.compare("validate_request", case, got, mod)
+                    if got[0] == "escapes":
+                        ctx.violation("C10:django:escapes:%s" % got[1], "the Django resource protector raised an unhandled exception", case)
+                    if got[0] == "serve" and not (sname == "live" and contained(scope, required)):
+                        ctx.violation("C10:django:served-without-right", "the Django resource protector served a request although the token is not live or "
+                                      "its scope does not contain a required alternative", case)
+                    blank_alt = any(not alt.split() for alt in (norm(required) or []))
+                    if auth in HEADERS_SERVING and sname == "live" and contained(scope, required) and not blank_alt and got[0] != "serve":
+                        ctx.violation("C10:django:refused-with-right", "live token with sufficient scope refused by the Django resource protector", case)
+
+
 def _plain_token(s):
     return bool(s) and s == s.strip() and " " not in s
 
@@ -416,6 +462,7 @@ def run(ctx):
                 "(header, state, scope, required, outcome) tuples")
     run_bearer(ctx)
     run_sqla(ctx)
+    run_django(ctx)
     run_flask(ctx)
     run_jwt_at(ctx)
 
@@ -423,6 +470,8 @@ def run(ctx):
 def run_case(ctx, case):
     if case.get("sqla_validator"):
         return run_sqla(ctx)
+    if case.get("django_protector"):
+        return run_django(ctx)
     if case.get("jwt_at"):
         rp, keys = at_setup()
         real_time = time.time
